@@ -103,6 +103,7 @@ theorem errs_decodeDct (dct : Dct) : ErrsIn DecErr (decodeDct dct) := by
   | leading bt enc hl bl => simp only []; errs
   | paramLen bt enc hl key => simp only []; errs
 
+set_option maxHeartbeats 1600000 in
 /-- every decoding function of the model, by induction on the fuel -/
 theorem errs_decode_all (fuel : Nat) :
     (∀ d, ErrsIn DecErr (decodeDop fuel d)) ∧
